@@ -46,6 +46,7 @@ class Session:
         # that consecutive edits really happen without an analysis in between
         # (per-step monitoring would otherwise refresh any cached state)
         self.sparse = bool(cfg.get("sparse"))
+        self.twin_lost = False  # set after a restart in runs that do not judge C12
         self.tol = checks.Tol()
         self.tol_atol = 0.0  # D20 is fixed: the solver's convergence test is purely relative
         self.outcomes = []
@@ -157,7 +158,9 @@ class Session:
             return
         for k in ("tree", "params", "save"):
             if isinstance(snap[k], tuple):
-                return  # report failed: judged by C15/C16/C17 twin oracles
+                # the structure cannot even be read: a registry and the graph
+                # disagree (not a well-formed tree)
+                self.fail("C14", "structure-readable", "%s() raised %s(%s)" % (k, snap[k][1], snap[k][2]))
         t, p, doc = snap["tree"], snap["params"], snap["save"]
         names = list(p["rows"].keys())
         if p["n"] != len(names):
@@ -356,10 +359,11 @@ class Session:
             if len(self.model.order) >= 4:
                 self.nontrivial.add(("rej", op.get("cls", reason or res[1]), self._target_kind(op)))
         self.check_structure(snap)
-        shsnap = self.snapshot(self.shadow)
-        d = self.snap_diff(snap, shsnap)
-        if d:
-            self._twin_fail(d, op, accepted)
+        if not self.twin_lost:
+            shsnap = self.snapshot(self.shadow)
+            d = self.snap_diff(snap, shsnap)
+            if d:
+                self._twin_fail(d, op, accepted)
         self.prev_snap = snap
         if accepted and "C16" in self.enabled and op.get("fresh_check", True):
             self.check_fresh_snapshot(snap)
